@@ -216,27 +216,19 @@ class Ctx:
         return i + 1
 
     def brk_in(self, items, c):
-        if self.icase:
-            c = _fold(c)
+        # ignore-case: a character is in the set if it or its other case is (ranges and classes are taken as written)
+        cs = [c]
+        if self.icase and c < 128 and chr(c).isalpha():
+            cs.append(c ^ 0x20)
         for it in items:
-            if it[0] == "c":
-                a = ord(it[1])
-                if self.icase:
-                    a = _fold(a)
-                if c == a:
-                    return True
-            elif it[0] == "r":
-                a, b = ord(it[1]), ord(it[2])
-                if self.icase:
-                    a, b = _fold(a), _fold(b)
-                if a <= c <= b:
-                    return True
-            else:
-                if self.icase and it[1] == "upper":
-                    # the engine folds the class's own range bounds as well: [:upper:] under ICASE is a-z
-                    if 0x61 <= c <= 0x7a:
+            for x in cs:
+                if it[0] == "c":
+                    if x == ord(it[1]):
                         return True
-                elif CLASSES[it[1]](c):
+                elif it[0] == "r":
+                    if ord(it[1]) <= x <= ord(it[2]):
+                        return True
+                elif CLASSES[it[1]](x):
                     return True
         return False
 
